@@ -150,7 +150,8 @@ CHECKS["C19"] = ("Proof (PARTIAL by nature): over the regenerated CLI descriptio
                  "positionals and options, clustered flags, explicit =value, --, exclusive group, required tests) interprets the parser descriptions "
                  "regenerated from the source together with how each run() uses its parser (parse_args / parse_known_args + the --eos filter, read "
                  "from the AST); C19.unknown_option_rejected, two_actions_rejected, missing_action_rejected hold for every tool and EVERY argument "
-                 "list (induction over the parsing loop). Tie: the real parsers (in-process parse_known_args: same namespace, same extras) and the "
+                 "list (induction over the parsing loop); C19.disk_documented_form_accepted — `act archive sources...` with --eos markers anywhere reaches run() "
+                 "with the sources and markers exactly as given, for every such list. Tie: the real parsers (in-process parse_known_args: same namespace, same extras) and the "
                  "real run() (status 2 exactly when the model says so, nothing created) on all argument lists of length <= 2 over a 50-string alphabet "
                  "per tool and thousands of random and mostly-valid longer ones. Interpreter start-up stays outside the model: the configuration "
                  "space of the property is also enumerated at process level with tree diffs. Known finding K1 (create --into) is reported, not hidden.", D, "7 C19")
